@@ -8,7 +8,7 @@
 (* TLC evaluates the Level A clauses of property Prop on every record;     *)
 (* verdicts are total (failing clauses are printed, the record consumed).  *)
 (***************************************************************************)
-EXTENDS ContractUrl, ImplUrl, Json, IOUtils, TLC, TLCExt
+EXTENDS ContractUrl, ImplOps, Json, IOUtils, TLC, TLCExt
 WriterModel == INSTANCE Writer WITH BUF <- 8192, MaxOut <- 0, MaxRuns <- 0, pc <- "idle", buf <- "static", size <- 8192,
                  pos <- 0, todo <- 0, liveHeap <- 0, freedTwice <- FALSE, freedStatic <- FALSE, faultUsed <- FALSE,
                  outcome <- "none", runs <- 0, written <- 0
@@ -35,7 +35,7 @@ C07_Checks(r) ==
 
 \* programs of the generators for C01/C02/C06 use auto-encoding creators only; a record is judged
 \* only if it is not itself an encoded=True entry point
-EncodedEntry(r) == \/ (r.act = "ctor" /\ r.args.encoded)
+EncodedEntry(r) == \/ (r.act = "ctor" /\ r.args.encoded) \/ r.act = "split"
                    \/ (r.act = "build" /\ "encoded" \in DOMAIN r.args.kw)
                    \/ (r.act \in {"with_path", "joinpath"} /\ r.args.encoded)
                    \/ (r.act = "join" /\ r.args.ref.encoded)
@@ -218,6 +218,21 @@ Checks(r) ==
     [] Prop = "C06" -> C06_Checks(r)
     [] OTHER -> {}
 
+\* ------------------------------------------------- Level I prediction of the recorded transition (drift measure)
+\* "agree" | "drift" | "gray" (outside the model) | "n/a" (action not modelled / receiver not observed)
+Five(o) == Url(Scheme5(o), Netloc5(o), Path5(o), Query5(o), Frag5(o))
+Agreement(r) ==
+  IF r.act \notin Modelled \/ "out" \notin DOMAIN r \/ "be" \notin DOMAIN r THEN "n/a"
+  ELSE IF r.act \notin {"ctor", "build"} /\ ~Has_(r, "self") THEN "n/a"
+  ELSE IF r.act = "join" /\ (~Has_(r, "other") \/ ~Ok(r.other)) THEN "n/a"
+  ELSE IF ~OutOk(r) /\ r.out.exc = "n/a" THEN "n/a"
+  ELSE LET self == IF Has_(r, "self") THEN Five(r.self) ELSE Url(<<>>, <<>>, <<>>, <<>>, <<>>)
+           other == IF r.act = "join" THEN Five(r.other.ok) ELSE self
+           p == Apply(r.be, r.act, r.args, self, other) IN
+       IF IsGray(p) THEN "gray"
+       ELSE IF IsOK(p) THEN (IF OutOk(r) /\ Five(r.out.ok) = p.ok THEN "agree" ELSE "drift")
+       ELSE (IF ~OutOk(r) /\ r.out.exc = p.exc THEN "agree" ELSE "drift")
+
 \* ------------------------------------------------- attribution to named deviations of Level I
 \* (trigger predicate AND observed = what Level I predicts for the deviation)
 ModelOf(o) == Url(Scheme5(o), Netloc5(o), Path5(o), Query5(o), Frag5(o))
@@ -288,14 +303,16 @@ Attribution(r) ==
   \* Dev_MakeChildClimbEatsRoot: '/' and joinpath with a '..' that climbs above the root (trigger only)
   \cup (IF r.act \in {"truediv", "joinpath"} /\ Has_(r, "self") /\ "parts" \in DOMAIN r.self /\ Ok(r.self.parts)
            /\ ClimbsAboveRoot(OldSegs(r.self) \o NewSegs(IF r.act = "truediv" THEN <<r.args.v>> ELSE r.args.vs))
+           /\ Agreement(r) = "agree"
         THEN {"Dev_MakeChildClimbEatsRoot"} ELSE {})
   \cup (IF (Has_(r, "self") /\ EmptyHostObs(r.self)) \/ (OutOk(r) /\ EmptyHostObs(r.out.ok)) THEN {"Dev_EmptyHost"} ELSE {})
   \cup (IF OutOk(r) /\ "raw_query_string" \in DOMAIN r.out.ok /\ Ok(r.out.ok.raw_query_string) /\ HasBadEscapeRun(V(r.out.ok.raw_query_string), 1)
         THEN {"Dev_QueryDecodeReplaces"} ELSE {})
-  \cup (IF Trig_BracketedNonIPv6(r) THEN {"Dev_BracketedNonIPv6LosesBrackets"} ELSE {})
+  \* (trigger AND the observed result is what Level I -- which contains the deviation -- predicts)
+  \cup (IF Trig_BracketedNonIPv6(r) /\ Agreement(r) = "agree" THEN {"Dev_BracketedNonIPv6LosesBrackets"} ELSE {})
 
 VARIABLE l
-TInit == l = 1 /\ TLCSet(1, [n |-> 0, applicable |-> 0])
+TInit == l = 1 /\ TLCSet(1, [n |-> 0, applicable |-> 0, agree |-> 0, modelled |-> 0, gray |-> 0])
 TNext ==
   /\ l <= Len(Recs)
   /\ LET r  == Recs[l]
@@ -306,8 +323,13 @@ TNext ==
         /\ IF failing # {} /\ Prop = "C03" THEN PrintT(<<"DIFF", r.id, C03_DiffFields(r.out.ok, r.reparse)>>) ELSE TRUE
         /\ IF failing # {} /\ Prop = "C09"
            THEN PrintT(<<"DIFF", r.id, UNION {C09_TwinDiff(r.out.ok, r.twin[k]) : k \in DOMAIN r.twin}>>) ELSE TRUE
-        /\ TLCSet(1, [n |-> TLCGet(1).n + 1,
-                      applicable |-> TLCGet(1).applicable + Cardinality({x \in cs : x[2]})])
+        /\ LET ag == Agreement(r) IN
+           /\ IF ag = "drift" THEN PrintT(<<"DRIFT", r.id>>) ELSE TRUE
+           /\ TLCSet(1, [n |-> TLCGet(1).n + 1,
+                         applicable |-> TLCGet(1).applicable + Cardinality({x \in cs : x[2]}),
+                         agree |-> TLCGet(1).agree + (IF ag = "agree" THEN 1 ELSE 0),
+                         modelled |-> TLCGet(1).modelled + (IF ag \in {"agree", "drift"} THEN 1 ELSE 0),
+                         gray |-> TLCGet(1).gray + (IF ag = "gray" THEN 1 ELSE 0)])
   /\ l' = l + 1
 Accepted == /\ PrintT(<<"STATS", TLCGet(1)>>)
             /\ TLCGet("stats").diameter - 1 = Len(Recs)
